@@ -8,7 +8,7 @@ def plan(tier):
                 "cfg": "SuffixIndexMC_C06_n.cfg" if q else "SuffixIndexMC_C06_n_thorough.cfg",
                 "timeout": 3000, "args": ["-coverage", "1"]}],
         "families": [{"fam": "fmd", "trace": "SuffixIndexTraceFmd", "nfiles": 2, "timeout": 3000}],
-        "required_obligations": ["exhaustive_small", "fmd_unchecked_constructor", "clone_fmdindex_both_continue", "clone_from_fmdindex_other_text_both_continue", "ext_same_string_both_orders", "serde_roundtrip_fmdindex", "fmd_backward_search_iterator_kinds", "all_smems_min_len_1_to_6", "interval_of_255_256_257_rows_one_preceding_symbol", "tables_from_reduced_alphabet", "ext_past_empty", "ext_past_empty_absent_symbol", "bwt_run_longer_than_occ_rate", "fmd_over_120_sequences", "palindromic_sequence", "periodic_sequence",
+        "required_obligations": ["exhaustive_small", "min_len_ge_2p32", "fmd_unchecked_constructor", "clone_fmdindex_both_continue", "clone_from_fmdindex_other_text_both_continue", "ext_same_string_both_orders", "serde_roundtrip_fmdindex", "fmd_backward_search_iterator_kinds", "all_smems_min_len_1_to_6", "interval_of_255_256_257_rows_one_preceding_symbol", "tables_from_reduced_alphabet", "ext_past_empty", "ext_past_empty_absent_symbol", "bwt_run_longer_than_occ_rate", "fmd_over_120_sequences", "palindromic_sequence", "periodic_sequence",
                                  "repeated_between_sequences", "with_n", "with_lower_case", "several_sequences",
                                  "occ_rate_gt64_second_checkpoint", "min_len_eq_pattern_len", "ext_spelled_occurring",
                                  "ext_every_symbol"],
